@@ -505,7 +505,8 @@ def call_by_contract(engine, c, fi, args, kwargs, st, node):
         cur_c = engine.current_contract
         for name, text in c.requires.items():
             b, pre = spec_bool(engine, text, pre, ctx=ctx)
-            engine.oblige(pre, b, f"{caller_fq}:call.{fi.qualname}:requires.{name}:{len(engine.obligs)}", kind="call-requires", func=caller_fq, clause=f"call.{fi.qualname}.requires.{name}", props=(cur_c.props_of("call") if cur_c else ()))
+            if not in_spec:  # a call inside a specification expression is not a call site of the code
+                engine.oblige(pre, b, f"{caller_fq}:call.{fi.qualname}:requires.{name}:{len(engine.obligs)}", kind="call-requires", func=caller_fq, clause=f"call.{fi.qualname}.requires.{name}", props=(cur_c.props_of("call") if cur_c else ()))
             pre = pre.assume(b)
         ctx.pre = pre
         if c.pure_function:
